@@ -198,6 +198,9 @@ func doFile(path, rel string) error {
 	// "count, then test" sequences are only as atomic as each single call -,
 	// so it becomes a scheduling point like a lock acquisition.
 	hasAtomic := func(st ast.Stmt) bool {
+		if strings.HasSuffix(rel, "_verif.go") || strings.HasSuffix(rel, "verif_hooks.go") || strings.HasSuffix(rel, "_noverif.go") {
+			return false // the injected hook files are the harness's, not the library's
+		}
 		found := false
 		ast.Inspect(st, func(n ast.Node) bool {
 			switch x := n.(type) {
